@@ -533,6 +533,7 @@ def h_replace_bytes(prop, case, facts, kind="dfa", n=2, timeout=1800):
         unsat.add("two replacements")
     return Harness(name, case, body, max(base_unwind(case, facts, n), 5), schema, meta, timeout=timeout, mem_gb=24,
                    functions=F_REPLACE + F_SEARCH + F_KIND[kind], unsat_ok=unsat,
+                   stubs=[("alloc::vec::Vec::<T, A>::append_elements", "crate::stubs::append_elements_nogrow")],
                    unwindset={("13replace_bytes", None): w + 1})
 
 
@@ -1140,10 +1141,11 @@ def schedule(prop, tier, seed):
         def mk(facts):
             hs = []
             for c in cases:
-                if "split" not in c.name:
-                    hs.append(h_replace_bytes(prop, c, facts, "dfa", n=int(__import__("os").environ.get("VERIF_C12N", "2")) if quick else 3))
-                if "split" in c.name or "empty" in c.name:
-                    hs.append(h_replace_str(prop, c, facts, "dfa", n=2 if quick else 3))
+                # measured: 8-13 min and up to 20 GB per harness at N=2 even with the no-growth stub
+                if "split" not in c.name and (not quick or c.name in ("c12std_two", "c12lf_empty")):
+                    hs.append(h_replace_bytes(prop, c, facts, "dfa", n=2 if quick else 3, timeout=2400 if quick else 5400))
+                if ("split" in c.name or "empty" in c.name) and (not quick or c.name in ("c12lf_empty", "c12std_split")):
+                    hs.append(h_replace_str(prop, c, facts, "dfa", n=2 if quick else 3, timeout=2400 if quick else 5400))
             return hs
         return cases, mk
     if prop == "C17":
@@ -1154,7 +1156,7 @@ def schedule(prop, tier, seed):
         def mk(facts):
             hs = []
             for c in cases:
-                h = h_purity(prop, c, facts, "dfa", n=3 if quick else 4)
+                h = h_purity(prop, c, facts, "dfa", n=(2 if c.sk == "both" else 3) if quick else 4)
                 h.mem_gb = 24
                 if not c.pf:
                     hc = Harness("h_pureclone_%s_dfa_n2" % c.name, c, _body(c, "dfa", "t::purity_clone::<%s, _, 2>(&a)" % c.mod),
@@ -1179,6 +1181,7 @@ def schedule(prop, tier, seed):
                 cases.append(Case("c19%s_%s" % (mkk, nm), pats, mk=mkk))
         cases.append(Case("c19std_ci", ["aAb", "ab"], mk="std", ci=True))
         cases.append(Case("c19lf_pf", ["abcq", "cdq"], mk="lf", pf=True))
+        cases.append(Case("c19std_pfs", ["abc", "ab"], mk="std", pf=True))
 
         def mk(facts):
             hs = []
